@@ -49,7 +49,7 @@ var (
 	reFinal = regexp.MustCompile(`(\d+) states generated, (\d+) distinct states found, (\d+) states left on queue`)
 	reDepth = regexp.MustCompile(`The depth of the complete state graph search is (\d+)`)
 	reInv   = regexp.MustCompile(`Error: Invariant (\S+) is violated`)
-	reProp  = regexp.MustCompile(`Error: (Temporal properties were violated|Action property (\S+) is violated)`)
+	reProp  = regexp.MustCompile(`Error: (Temporal properties were violated|Temporal property \S+ was violated|Action property (\S+) is violated)`)
 )
 
 func copyFile(dst, src string) error {
